@@ -25,6 +25,11 @@ def run(m: Model, r: Report, tier: str) -> None:
     r.rule("R6", "acknowledgement and diagnostic-message filters skip a frame iff any address differs; the ack compares the echoed prefix", floor=3)
     r.rule("R7", "frames skipped while waiting are re-queued on every normal exit and before a NACK is raised", floor=3)
     r.rule("R8", "only the TargetUnreachable NACK is swallowed by DoIPTransport.write", floor=1)
+    r.rule("R12", "payload types, activation types, response / ack / NACK codes and timing parameters equal the ISO 13400-2 tables", floor=15)
+    from sa.oracles import iso13400
+    tr.protocol_tables(m, r, "R12", DOIP, iso13400.DOIP_TABLES)
+    r.rule("R13", "frame decoding is total: wire integers are coerced only into enums with a catch-all member", floor=4)
+    tr.wire_enum_coercion_total(m, r, "R13", DOIP, ("unpack", "_read_frame", "_read_worker"), strict=("GenericHeader.unpack", "._read_frame", "._read_worker"))
     r.rule("R9", "the acknowledgement wait is bounded; on timeout the connection is closed and BrokenPipeError raised", floor=3)
     r.rule("R10", "all consumers of the read queue are mutually excluded by the connection mutex (a reader cannot steal a writer's ack)", floor=1)
     r.rule("R11", "alive check requests are answered by the reader task itself with the configured source address and never queued", floor=2)
